@@ -39,6 +39,10 @@ def build_grid() -> list[dict]:
                             if first and code is None:
                                 continue
                             cells.append({"step": step, "driver": driver, "code": code, "state": state, "keep": keep, "first": first})
+                            if step in ("add_m2", "remove_m2") and keep:
+                                # management replies carry no other fields of their own: "whichever other fields the reply carries" is
+                                # exercised with a foreign item placed ahead of the state / error items
+                                cells.append({"step": step, "driver": driver, "code": code, "state": state, "keep": keep, "first": first, "foreign": True})
     return cells
 
 
@@ -72,7 +76,7 @@ def gen_plan(seed: int, tier: str) -> dict:
 
 def _mut_for(cell) -> dict:
     kind = {"setup_m2": "error2", "setup_m4": "error4", "setup_m6": "error6", "verify_m2": "error", "verify_m4": "error4", "resume_m2": "error"}.get(cell["step"], "pairings")
-    return {"kind": kind, "code": cell["code"], "state": cell["state"], "keep_fields": cell["keep"], "error_first": cell["first"]}
+    return {"kind": kind, "code": cell["code"], "state": cell["state"], "keep_fields": cell["keep"], "error_first": cell["first"], "foreign_first": cell.get("foreign", False)}
 
 
 def execute(plan: dict, ch: Chooser) -> dict:
@@ -108,7 +112,7 @@ def execute(plan: dict, ch: Chooser) -> dict:
     code, state = cell["code"], cell["state"]
     wrong_state = state not in ("expected", "absent")
     name = type(exc).__name__ if exc is not None else None
-    desc = f"step {step} driver {driver} code {code} state {state} keep_fields {cell['keep']} error_first {cell['first']}"
+    desc = f"step {step} driver {driver} code {code} state {state} keep_fields {cell['keep']} error_first {cell['first']} foreign_item_first {cell.get('foreign', False)}"
     ctx.event("cell", cell.get("cell"), name, result is not None)
     if code is not None or wrong_state:
         if result is not None:
